@@ -174,4 +174,37 @@ FUNCS = [
          S.information_gain, {"Information gain": "P01"}, optimum=opt_ig),
 ]
 
+
+
+def _eval_call(r, e, **kw):
+    out = M.evaluate(r, e, **kw)
+    return tuple(out[k] for k in S.EVAL_KEYS)
+
+
+def _eval_spec(R, E, **kw):
+    out = S.evaluate(R, E, **kw)
+    return tuple(out[k] for k in S.EVAL_KEYS)
+
+
+FUNCS.append(Func("beat.evaluate", _eval_call, list(S.EVAL_KEYS), {"min_beat_time": [5.0, 5.5]}, build, model,
+                  _eval_spec, {k: "ANY" for k in S.EVAL_KEYS}))
+
 TASK = Task("beat", FUNCS, pair_space, single_space)
+
+
+# ---- edge relations (C08): a common time offset must not change any beat score; the lattice is dyadic so x + d is
+# exact, and every beat stays >= the 5 s trim time
+def _shift(state):
+    out = []
+    for d in (1 / 16.0, 1.0, 1000.0):
+        out.append(("+%g" % d, (tuple(float(Fr(x) + Fr(d)) for x in state[0]),
+                                tuple(float(Fr(x) + Fr(d)) for x in state[1]))))
+    return out
+
+
+def _shift_ok(state, fname):
+    # evaluate() trims beats before 5 s: the property only covers shifts that keep every beat >= the trim time
+    return fname != "beat.evaluate" or all(x >= 5.0 for side in state for x in side)
+
+
+TASK.edges = {"shift": {"apply": _shift, "funcs": None, "keys": None, "ok": _shift_ok}}
